@@ -37,8 +37,8 @@ Reset ==
 \* a model content announced by the recorder: must be a content
 Model ==
     /\ IsEvent("Model")
-    /\ IsContent(E.items)
-    /\ \A i \in 1..Len(E.items) : IsU64(E.items[i][2])
+    /\ TRUE = IsContent(E.items)                \* value mode: a \A in action mode recurses per element
+    /\ TRUE = (\A i \in 1..Len(E.items) : IsU64(E.items[i][2]))
     /\ mdl' = Put(mdl, E.m, l)
     /\ UNCHANGED <<bld, fsts, auts, strm, ops>>
 
@@ -86,10 +86,10 @@ ExtOK(b, call, items, i, cnt, res) ==
 ExtAllOK(b, call, items, cnt) ==
     LET c == Items(bld[b].m) IN
     /\ cnt + Len(items) <= Len(c)
-    /\ \A i \in 1..Len(items) :
+    /\ TRUE = (\A i \in 1..Len(items) :
           /\ c[cnt + i] = items[i]
           /\ InsertResult(call, IF i = 1 THEN (IF cnt = 0 THEN None ELSE Some(c[cnt][1]))
-                                          ELSE Some(items[i - 1][1]), items[i][1]) = OkRes
+                                          ELSE Some(items[i - 1][1]), items[i][1]) = OkRes)
 
 BExt ==
     /\ IsEvent("BExt")
@@ -221,7 +221,7 @@ TableOf(e) == [i \in 1..Len(e.table) |->
 ONew ==
     /\ IsEvent("ONew")
     /\ \A j \in 1..Len(E.ins) : E.ins[j] \in DOMAIN mdl
-    /\ IsMergeTable(TableOf(E), InsOf(E))
+    /\ TRUE = IsMergeTable(TableOf(E), InsOf(E))
     /\ ops' = Put(ops, E.o, [line |-> l, pos |-> 0, done |-> FALSE])
     /\ UNCHANGED <<mdl, bld, fsts, auts, strm>>
 
